@@ -10,6 +10,7 @@ SRCS = ["lib/random/random.c", "lib/random/xxtea.c"]
 
 
 def build(d, ub):
+    os.makedirs(d, exist_ok=True)
     flags = list(vc.BASE_FLAGS) + ["-w", "-I" + vc.SRC, "-I" + os.path.join(vc.VERIF, "harness")]
     if ub:
         flags += ["-fsanitize=undefined,float-divide-by-zero", "-fno-sanitize-recover=undefined"]
